@@ -141,14 +141,19 @@ def run(ctx):
     rets = [r for r in walk_no_nested(getf) if isinstance(r, ast.Return) and r.value is not None]
     gcan = canon(getf)
     inst_p = getf.args.args[1].arg
-    get_ok = False
     get_forms = []
+    product_returns, other_returns = 0, 0
     for r in rets:
         e = gcan.expr(r.value)
         get_forms.append(norm(e))
+        if norm(e) == getf.args.args[0].arg:
+            continue        # `return self` when read on the class
         if isinstance(e, ast.BinOp) and isinstance(e.op, ast.Mult) and norm(e.left) == norm(e.right) \
                 and norm(e.left).startswith('getattr(%s, self.' % inst_p):
-            get_ok = True
+            product_returns += 1
+        else:
+            other_returns += 1
+    get_ok = product_returns >= 1 and other_returns == 0
     ctx.ob('C18.R3', 'squared:get-is-plain-squared', get_ok,
            'squared_property.__get__ returns plain * plain, computed at read time (the product gives '
            'inf for a huge cut-off where ** 2 raises OverflowError); returns: %s' % get_forms,
